@@ -341,6 +341,8 @@ pub struct Ctx {
     pub cycles_only: bool,
     /// C15: the only question is whether the emulator unwinds
     pub panic_only: bool,
+    /// C09: W/L operands at odd addresses are checked as compositions of consecutive bytes
+    pub strict_odd: bool,
 }
 
 /// Built-in self-test of the comparison: perturb the reference for selected cases and require a mismatch.
@@ -379,6 +381,7 @@ impl Ctx {
             wlog: Vec::with_capacity(64),
             cycles_only: false,
             panic_only: false,
+            strict_odd: false,
         }
     }
 
@@ -409,6 +412,9 @@ impl Ctx {
 
     /// Compute the reference outcome for a case whose set-up is already in memory.
     pub fn reference(&mut self, c: &Case, d: &Defects) -> (Decoded, RefOut) {
+        let mut d2 = *d;
+        d2.strict_odd = self.strict_odd;
+        let d = &d2;
         let rin = RefIn { er: c.er, ccr: c.ccr, pc: c.pc };
         match c.kind {
             Kind::Irq(v) => {
